@@ -330,15 +330,15 @@ template <class T, int D> struct Members
         }
         if (!d.isEmpty () || !e.isEmpty () || d != e || !(d == e)) fail (std::string (X::cls ()) + "-default-empty", tg + " default/makeEmpty not empty or unequal");
         if (!inf.isInfinite () || inf.isEmpty ()) fail (std::string (X::cls ()) + "-isInfinite", tg + " makeInfinite box not reported infinite");
-        // the defect candidate of DESIGN §7: empty vs infinite
+        // DESIGN §7 item 5 (repaired): empty vs infinite
         // (reported by pairs() on the lattice as well; here the literal makeEmpty / makeInfinite pair)
         {
-            // the Lean witness of *_intersectsBox_iff_FALSE: the inverted box [5,-5] against [-5,5]
+            // the former counterexample to *_intersectsBox_iff (repaired in /repo 955f533): the inverted box [5,-5] against [-5,5]
             IP<D> a, c;
             for (int i = 0; i < D; ++i) { a[i] = 10; c[i] = -10; }
             B wE = mkB<T, D> (a, c), wI = mkB<T, D> (c, a);
             std::lock_guard<std::mutex> l (g_mu);
-            printf ("WITNESS %s intersectsBox_iff_FALSE: [5..-5].intersects([-5..5]) = %d, [5..-5].isEmpty() = %d\n", tg.c_str (), (int) wE.intersects (wI), (int) wE.isEmpty ());
+            printf ("WITNESS %s intersectsBox empty-vs-containing: [5..-5].intersects([-5..5]) = %d, [5..-5].isEmpty() = %d\n", tg.c_str (), (int) wE.intersects (wI), (int) wE.isEmpty ());
         }
         if (e.intersects (inf) || inf.intersects (e))
             fail (std::string (X::cls ()) + "-intersects:empty-vs-containing",
@@ -921,7 +921,7 @@ template <class T> struct Xf
         }
     }
 
-    // the witnesses of the Lean theorems transformOut_{empty,infinite,projective}_FALSE, replayed on the real code
+    // the former counterexamples to `transformOut_eq` (repaired in /repo 6dca912), replayed on the real code
     static void witnesses ()
     {
         M id; // identity
@@ -935,11 +935,11 @@ template <class T> struct Xf
         B r2 = unit; transform (inf, id, r2);
         B r3 (V (5, 5, 5), V (6, 6, 6)); transform (unit, pr, r3);
         B v3 = transform (unit, pr);
-        printf ("WITNESS %s transformOut_empty_FALSE: transform(makeEmpty(), I, result=[0,1]^3) -> result=%s isEmpty=%d (value form: isEmpty=%d)\n", tg ().c_str (),
+        printf ("WITNESS %s transformOut empty input: transform(makeEmpty(), I, result=[0,1]^3) -> result=%s isEmpty=%d (value form: isEmpty=%d)\n", tg ().c_str (),
                 boxS (r1).c_str (), (int) r1.isEmpty (), (int) transform (e, id).isEmpty ());
-        printf ("WITNESS %s transformOut_infinite_FALSE: transform(makeInfinite(), I, result=[0,1]^3) -> result=%s isInfinite=%d (value form: isInfinite=%d)\n", tg ().c_str (),
+        printf ("WITNESS %s transformOut infinite input: transform(makeInfinite(), I, result=[0,1]^3) -> result=%s isInfinite=%d (value form: isInfinite=%d)\n", tg ().c_str (),
                 boxS (r2).c_str (), (int) r2.isInfinite (), (int) transform (inf, id).isInfinite ());
-        printf ("WITNESS %s transformOut_projective_FALSE: transform([0,1]^3, diag(1,1,1,2), result=[5,6]^3) -> result=%s ; value form -> %s\n", tg ().c_str (),
+        printf ("WITNESS %s transformOut projective: transform([0,1]^3, diag(1,1,1,2), result=[5,6]^3) -> result=%s ; value form -> %s\n", tg ().c_str (),
                 boxS (r3).c_str (), boxS (v3).c_str ());
     }
 
